@@ -185,4 +185,9 @@ def _parse_harnesses():
 
 def extra_validation():
     """witnesses the driver replays in the clean interpreter in addition to path samples"""
-    return [{"check": "c04.compile_any", "args": {"text": t}} for t in MALFORMED]
+    ws = [{"check": "c04.compile_any", "args": {"text": t}} for t in MALFORMED]
+    # expressions that combine several of CEL's minimum nesting limits (12 nested calls, 12 nested list literals, 24 repeated
+    # binary operators, 32 || / && terms), evaluated in a fresh process under both runners: no RecursionError may escape
+    ws += [{"check": "c04.deep_expression", "args": {"calls": c, "lists": l, "adds": a, "terms": t, "zero": z}}
+           for c, l, a, t, z in ((12, 12, 24, 1, False), (12, 12, 24, 32, False), (12, 12, 24, 32, True), (6, 12, 24, 16, False), (12, 0, 24, 32, True))]
+    return ws
